@@ -49,7 +49,10 @@ func parseCmd(line string) (cmd string, arg string, err error) {
 // The leading space is mandatory.
 func parseArgs(s string) (map[string]string, error) {
 	argMap := map[string]string{}
-	for _, arg := range strings.Fields(s) {
+	// Parameters are separated by SP (RFC 5321); Unicode white space is
+	// legal inside SMTPUTF8 parameter values and must not split them.
+	isSeparator := func(r rune) bool { return r == ' ' || r == '\t' }
+	for _, arg := range strings.FieldsFunc(s, isSeparator) {
 		m := strings.Split(arg, "=")
 		switch len(m) {
 		case 2:
